@@ -647,3 +647,41 @@ Proof.
   destruct (wire_question_section wire) as [qs|]; [|discriminate].
   apply qents_same_eq in Hq. subst. reflexivity.
 Qed.
+
+(* ------------------------------------------------------------------ *)
+(* tcp(): an answer is never handed out after the deadline               *)
+
+Lemma net_write_loop_deadline e : forall evs data sent now sent' evs' now',
+  net_write_loop (Some e) evs data sent now = Ok (sent', evs', now') -> now' = now \/ now' < e.
+Proof.
+  induction evs as [|ev evs IH]; intros data sent now sent' evs' now' H.
+  - destruct data; cbn [net_write_loop] in H; inversion H; auto.
+  - destruct data as [|x data]; cbn [net_write_loop] in H.
+    + inversion H; auto.
+    + destruct ev as [k|dt].
+      * eapply IH; eauto.
+      * destruct (wait_for now (Some e) dt) as [n1| |] eqn:W; cbn [bind] in H; try discriminate.
+        apply wait_for_ok_lt in W. apply IH in H. lia.
+Qed.
+
+Theorem tcp_answer_within_timeout (parse : list Z -> pabs) q qwire T it wevs stream revs now m wire t sent sk :
+  tcp parse q qwire (Some T) it wevs stream revs now = Ok (m, wire, t, sent, sk) -> t = 0 \/ t < T.
+Proof.
+  unfold tcp. cbn [compute_times].
+  unfold send_tcp. destruct (zlen qwire >? 65535); [discriminate|].
+  destruct (net_write_loop (Some (now + T)) wevs (u16be (zlen qwire) ++ qwire) [] now)
+    as [[[s e] t1]| |] eqn:W; cbn [bind]; try discriminate.
+  apply net_write_loop_deadline in W.
+  unfold receive_tcp.
+  destruct (net_read (Some (now + T)) {| rs_stream := stream; rs_evs := revs; rs_now := t1 |} 2)
+    as [[ldata sk1]| |] eqn:R1; cbn [bind]; try discriminate.
+  unfold net_read in R1. apply net_read_loop_deadline in R1. cbn [rs_now] in R1.
+  destruct ldata as [|hi [|lo [|]]]; try discriminate.
+  destruct (net_read (Some (now + T)) sk1 (Z.to_nat (hi * 256 + lo))) as [[w sk2]| |] eqn:R2;
+    cbn [bind]; try discriminate.
+  unfold net_read in R2. apply net_read_loop_deadline in R2.
+  destruct (from_wire_out (parse w) it false) as [m'|m'|e']; try discriminate.
+  - cbn [bind]. destruct (negb (is_response q m')); [discriminate|].
+    intros H. inversion H; subst. lia.
+  - unfold err_res. destruct (e' <? 20); discriminate.
+Qed.
